@@ -110,12 +110,12 @@ type absPolicy struct {
 
 var absPolicies = []absPolicy{
 	{"T:2:1,2,3", 3},
-	{"N:1,2|3,4", 4},                  // CNF, non-ideal: holders own several rows
-	{"G:g2[1,g1[2,3],g2[1,3]]", 3},    // gate tree with repeated leaves
+	{"N:1,2|3,4", 4},               // CNF, non-ideal: holders own several rows
+	{"G:g2[1,g1[2,3],g2[1,3]]", 3}, // gate tree with repeated leaves
 	{"U:1,2,3", 3},
 	{"H:1:1,2|2:3,4", 4},
 	{"T:3:1,2,3,4,5", 5},
-	{"N:1|2|3", 3},                    // 2-of-3 as CNF (two rows per holder)
+	{"N:1|2|3", 3}, // 2-of-3 as CNF (two rows per holder)
 	{"G:g2[g2[1,2,3],g1[4,5]]", 5},
 	{"T:2:1,2", 2},
 }
@@ -192,12 +192,12 @@ func msgSpec(i int, rng *vh.Rng, allowEmpty bool) string {
 }
 
 type genSpec struct {
-	proto    string
-	variants []string
-	count    int
-	maxQ     int // largest quorum
-	exactQ   int
-	emptyOK  bool
+	proto     string
+	variants  []string
+	count     int
+	maxQ      int // largest quorum
+	exactQ    int
+	emptyOK   bool
 	polFilter func(absPolicy) bool
 }
 
@@ -416,7 +416,7 @@ func main() {
 			if prev, ok := groups[o.group]; ok && prev.sigText != o.sigText {
 				res.Mismatch(vh.Mismatch{ID: id, Kind: "prop", Key: o.k.Proto + "-signature-depends-on-quorum", PropFail: true,
 					Detail: fmt.Sprintf("quorum %s gives %s, quorum %s gives %s", keys.IDsText(prev.k.Quorum), prev.sigText, keys.IDsText(o.k.Quorum), o.sigText),
-					Case: o.k.text(), What: "boldyreva_quorum_independent: every accepted quorum yields the same (unique) BLS signature"})
+					Case:   o.k.text(), What: "boldyreva_quorum_independent: every accepted quorum yields the same (unique) BLS signature"})
 			} else if !ok {
 				groups[o.group] = o
 			}
